@@ -49,6 +49,8 @@ def eq_canon(root, sort_dicts=True):
       return ("dict", n, tuple((repr(k), go(v)) for k, v in items))
     if isinstance(x, list):
       return ("list", n, tuple(go(v) for v in x))
+    if isinstance(x, tuple) and hasattr(x, "_fields"):
+      return ("namedtuple", n, type(x).__name__, tuple(go(v) for v in x))
     if isinstance(x, tuple):
       return ("tuple", n, tuple(go(v) for v in x))
     if isinstance(x, (set, frozenset)):
@@ -58,13 +60,37 @@ def eq_canon(root, sort_dicts=True):
   return go(root)
 
 
+def shares_between_dict_values(root) -> bool:
+  """Some dict has two values from which one memoizable object is reachable."""
+  for d in c02.reachable(root):
+    if isinstance(d, dict) and len(d) > 1:
+      seen = {}
+      for i, v in enumerate(d.values()):
+        for y in c02.reachable(v) if common.own_memoizable(v) else []:
+          if common.own_memoizable(y) and not common.own_internable(y):
+            if seen.setdefault(id(y), i) != i:
+              return True
+  return False
+
+
+KNOWN_NT_TUPLE = "C06/namedtuple-vs-tuple-invisible-when-children-visited-before"
+
+
+def nt_as_tuple(t):
+  if isinstance(t, tuple):
+    t = tuple(nt_as_tuple(u) for u in t)
+    if t and t[0] == "namedtuple" and len(t) == 4:
+      return ("tuple", t[1], t[3])
+  return t
+
+
 def values_only_canon(root):
   """Like eq_canon but without sharing labels (to classify sharing-only differences)."""
   def strip(t):
     if isinstance(t, tuple):
       if t and t[0] == "ref":
         return ("ref",)
-      if t and t[0] in ("buildable", "dict", "list", "set", "opaque") or (
+      if t and t[0] in ("buildable", "dict", "list", "set", "opaque", "namedtuple") or (
           t and t[0] == "tuple" and len(t) == 3 and isinstance(t[1], int) and isinstance(t[2], tuple)):
         return (t[0],) + tuple(strip(u) for u in t[2:])
       return tuple(strip(u) for u in t)
@@ -85,7 +111,7 @@ def mutable_nodes(root):
 
 REWRITES = ["copy", "explicit_default", "dict_reorder", "history", "leaf", "callable", "type",
             "alias_create", "alias_break", "alias_redirect", "add_arg", "remove_arg", "tag",
-            "const_tuple_realias"]
+            "const_tuple_realias", "nt_to_tuple"]
 
 
 def rewrite(rng, a):
@@ -189,6 +215,13 @@ def rewrite_once(rng, a, kind):
         x, k = rng.choice(slots_holding(b, t))
         set_slot(x, k, fresh_tuple(t))
         return b, kind, True
+    if kind == "nt_to_tuple":
+      # a NamedTuple replaced by the plain tuple of its fields (== in Python, but another type is built)
+      nts = [x for x in c02.reachable(b) if isinstance(x, tuple) and hasattr(x, "_fields") and slots_holding(b, x)]
+      if nts:
+        t = rng.choice(nts)
+        if replace_everywhere(b, t, tuple(t)):
+          return b, kind, False
     if kind in ("alias_create", "alias_break", "alias_redirect"):
       res = alias_rewrite(rng, b, kind)
       if res is not None:
@@ -328,6 +361,10 @@ def complementary_defaults_pair(rng, base):
   return None
 
 
+def fi(s=8, /, **kw):
+  return l2._rec("fi", locals())  # pylint: disable=protected-access
+
+
 def check_pair(res, intern, stream, a, b, kind, expected, label):
   res.evaluations += 1
   res.count("rewrite:" + kind)
@@ -358,10 +395,14 @@ def check_pair(res, intern, stream, a, b, kind, expected, label):
         key = KNOWN_ALIAS
       elif r_ab[1]:
         problems.append("== is True for configurations that differ")
+        if nt_as_tuple(eq_canon(a)) == nt_as_tuple(eq_canon(b)):
+          key = KNOWN_NT_TUPLE    # the only difference: a NamedTuple on one side, the plain tuple on the other
       else:
         problems.append("== is False for configurations equal in callables, types, values and sharing")
-        if eq_canon(a, sort_dicts=False) != eq_canon(b, sort_dicts=False):
-          key = KNOWN_DICT_ORDER  # the two differ in dict insertion order only
+        if eq_canon(a, sort_dicts=False) != eq_canon(b, sort_dicts=False) and (
+            shares_between_dict_values(a) or shares_between_dict_values(b)):
+          key = KNOWN_DICT_ORDER  # differ in dict insertion order only, and an object is shared between two
+                                  # values of one dict (the situation of the known finding)
   for p in problems[:1]:
     res.failures.append(Failure(key, f"C06 {label} [{kind}]: {p}", replay))
   if r_ab[0] == "ok":
@@ -396,7 +437,8 @@ def run(tier: str, seed: int) -> Result:
   res.rule = ("pairs (a, b): b derived from a deep copy of a random configuration by one labelled rewrite "
               "(copy, default made explicit, dict reordered, different history, leaf / callable / type change, "
               "alias created / broken / redirected, argument added / removed, tag added, one occurrence of a (nested) "
-              "constant tuple replaced by an equal fresh one), two-sided pairs (both sides "
+              "constant tuple replaced by an equal fresh one, NamedTuple replaced by the plain tuple), dict keys of one "
+              "unorderable type reordered / redirected, **kwargs entry equal to a positional-only default, two-sided pairs (both sides "
               "rewritten 1-2 times from one base), complementary-default pairs (explicit default of p on one side, "
               "q set on the other), unrelated pairs, and "
               "chains for transitivity; ground truth = canonical forms with defaults filled in; distinct by "
@@ -458,4 +500,25 @@ def run(tier: str, seed: int) -> Result:
   # mixed-type dict keys must not make == raise
   a = fdl.Config(l2.fa, {1: [0], "a": [1]})
   check_pair(res, intern, stream, a, copy.deepcopy(a), "mixed_keys", True, "mixed-keys")
+  # keys of ONE type that cannot be ordered with < (tuples of mixed content, complex numbers, enum members,
+  # classes): dict insertion order must still be ignored, a redirected value still be seen
+  for j, keys in enumerate([[(1, "a"), ("a", 1)], [1j, 2j, 3j], [l2.Color.RED, l2.Color.BLUE], [l2.Ka, l2.Kb],
+                            [(1, "a"), ("a", 1), (None, 2)]]):
+    vals = [[i] for i in range(len(keys))]
+    a = fdl.Config(l2.fa, dict(zip(keys, vals)), b=vals[0])
+    vals2 = [[i] for i in range(len(keys))]
+    order = list(range(len(keys)))
+    rng.shuffle(order)
+    if order == sorted(order):
+      order.reverse()
+    b = fdl.Config(l2.fa, {keys[i]: vals2[i] for i in order}, b=vals2[0])
+    check_pair(res, intern, stream, a, b, "unorderable_keys_reordered", True, f"unorderable-keys#{j}")
+    c = fdl.Config(l2.fa, {keys[i]: vals2[i] for i in order}, b=vals2[-1])
+    check_pair(res, intern, stream, a, c, "unorderable_keys_redirected", False, f"unorderable-keys-redirect#{j}")
+  # a **kwargs entry named like a positional-only parameter whose default it equals is still an argument
+  for j, (x, y) in enumerate([(fdl.Config(fi, 8, s=8), fdl.Config(fi, 8)), (fdl.Config(fi, 1, s=8), fdl.Config(fi, 1)),
+                              (fdl.Config(l2.fd, k=fdl.Config(fi, 8, s=8)), fdl.Config(l2.fd, k=fdl.Config(fi, 8)))]):
+    check_pair(res, intern, stream, x, y, "kwarg_equals_posonly_default", False, f"kwarg-posonly-default#{j}")
+    check_pair(res, intern, stream, x, copy.deepcopy(x), "kwarg_equals_posonly_default_copy", True,
+               f"kwarg-posonly-default-copy#{j}")
   return res
